@@ -199,3 +199,16 @@ pub fn moves_text(ms: &[Mv]) -> String {
     v.sort();
     v.join(" ")
 }
+
+
+thread_local! {
+    static TL_MG: &'static crate::move_gen::MoveGenerator = Box::leak(Box::new(crate::move_gen::MoveGenerator::new()));
+}
+
+/// This thread's own move generator (created on first use, lives as long as the process). Worker
+/// closures take it from here instead of sharing one across threads: a generator that keeps
+/// state of its own (a cache behind a Cell) is not shareable, and must not stop the harness from
+/// building.
+pub fn tl_mg() -> &'static crate::move_gen::MoveGenerator {
+    TL_MG.with(|m| *m)
+}
